@@ -6,6 +6,11 @@
 
 package decorator
 
+// unit invariance of a decorator is conditional on that of what it wraps: the hypothesis below says the wrapped
+// strategy, handed price-scaled (volume-scaled) snapshots in the second run, recommends the same actions; that the
+// decorator does hand it exactly those snapshots, and adds nothing unit-dependent itself, is what is proved
+//@ macro subinv(lam) = (len(second(arg(Strategy_Compute, 0, 0))) == len(arg(Strategy_Compute, 0, 0)) && (forall k :: 0 <= k && k < len(arg(Strategy_Compute, 0, 0)) ==> pscaled(second(arg(Strategy_Compute, 0, 0))[k], arg(Strategy_Compute, 0, 0)[k], lam))) ==> (len(second(res(Strategy_Compute, 0))) == len(res(Strategy_Compute, 0)) && (forall k :: 0 <= k && k < len(res(Strategy_Compute, 0)) ==> second(res(Strategy_Compute, 0))[k] == res(Strategy_Compute, 0)[k]))
+//@ macro subinvv(mu) = (len(second(arg(Strategy_Compute, 0, 0))) == len(arg(Strategy_Compute, 0, 0)) && (forall k :: 0 <= k && k < len(arg(Strategy_Compute, 0, 0)) ==> vscaled(second(arg(Strategy_Compute, 0, 0))[k], arg(Strategy_Compute, 0, 0)[k], mu))) ==> (len(second(res(Strategy_Compute, 0))) == len(res(Strategy_Compute, 0)) && (forall k :: 0 <= k && k < len(res(Strategy_Compute, 0)) ==> second(res(Strategy_Compute, 0))[k] == res(Strategy_Compute, 0)[k]))
 //@ func InverseStrategy.Compute
 //@ requires consumed(snapshots) == 0
 //@ ensures[C05,C07] len(result) >= len(snapshots) && (len(snapshots) >= warmup(i.InnerStrategy) ==> len(result) == len(snapshots))
@@ -14,6 +19,14 @@ package decorator
 //@ ensures[C03] consumed(snapshots) == len(snapshots) && closed(result)
 //@ ensures[C04] forall k :: 0 <= k && k < len(result) && k < len(snapshots) ==> hor(result, k) <= hor(snapshots, k)
 //@ lit#0 ensures[C07] "swaps-buy-and-sell" ret == 0 - action
+//@ rel[C18] "price" param lam real
+//@ rel[C18] "price" assume lam > 0 && len(second(snapshots)) == len(snapshots) && (forall k :: 0 <= k && k < len(snapshots) ==> pscaled(second(snapshots)[k], snapshots[k], lam))
+//@ rel[C18] "price" assume subinv(lam)
+//@ rel[C18] "price" ensures len(second(result)) == len(result) && (forall k :: 0 <= k && k < len(result) ==> second(result)[k] == result[k])
+//@ rel[C18] "volume" param mu real
+//@ rel[C18] "volume" assume mu > 0 && len(second(snapshots)) == len(snapshots) && (forall k :: 0 <= k && k < len(snapshots) ==> vscaled(second(snapshots)[k], snapshots[k], mu))
+//@ rel[C18] "volume" assume subinvv(mu)
+//@ rel[C18] "volume" ensures len(second(result)) == len(result) && (forall k :: 0 <= k && k < len(result) ==> second(result)[k] == result[k])
 
 //@ func NoLossStrategy.Compute
 //@ requires consumed(snapshots) == 0 && (forall k :: 0 <= k && k < len(snapshots) ==> snapshots[k].Close > 0)
